@@ -78,7 +78,9 @@ def gen_case(st, i, tier="quick", op=None):
         else:
             cx = rng.choice([0.5, 1.0, 2.0, 3.0, 0.1, 0.3, 0.7])
             cy = rng.choice([0.5, 1.0, 2.0, 3.0, 0.1, 0.3, 0.7])
-            x0, y0 = rng.choice([0.0, 100.0, -7.5]), rng.choice([0.0, 50.0, -3.0])
+            # index-like, small, and projected (UTM-like: large relative to the cell size) origins
+            x0 = rng.choice([0.0, 100.0, -7.5, 500000.0, 0.0])
+            y0 = rng.choice([0.0, 50.0, -3.0, 4649776.0, 0.0])
         exact = (not lonlat) and rng.random() < 0.25
         if exact:
             # "exactly at the halo": decimal cell sizes from a 0.05 grid and max_distance = k cells typed
@@ -98,12 +100,16 @@ def gen_case(st, i, tier="quick", op=None):
         dtype = rng.choice(["i4", "i8", "f4", "f8", "u1"])
         dens = rng.choice([0.02, 0.05, 0.15, 0.3])
         nprs = np.random.RandomState(rng.getrandbits(32))
-        data = np.where(nprs.rand(H, W) < dens, nprs.randint(1, 4, (H, W)), 0).astype(dtype)
+        data = np.where(nprs.rand(H, W) < dens, nprs.randint(1, 4, (H, W)), 0)
+        if np.dtype(dtype).kind in "if" and rng.random() < 0.3:
+            # negative cells are targets too (anything non-zero and finite is)
+            data = np.where(nprs.rand(H, W) < 0.5, -data, data)
+        data = data.astype(dtype)
         if data.dtype.kind == "f" and rng.random() < 0.3:
             data[nprs.rand(H, W) < 0.1] = np.nan
         params = {"distance_metric": metric}
         if rng.random() < 0.35:
-            params["target_values"] = rng.choice([[1], [2, 3], [1, 2, 3], [3], [0]])
+            params["target_values"] = rng.choice([[1], [2, 3], [1, 2, 3], [3], [0], [0, 1], [-1, -2]])
         r = rng.random()
         if r < 0.12:
             params["max_distance"] = None
